@@ -312,6 +312,9 @@ def user_line(rng, marker=None):
         b"<<<FOR_BEGIN=A,B>>>", b"<<<FOR_END>>>", b"<<<ELSE>>>",
         # lines that do NOT contain the USER tag prefix but whose cleaned-up form does (inside the property's quantifier)
         b"// moved here from the {{{ USER_LOCALS }}} block", b"{{{U SER_X", b"{ { {USER_IMPORTS", b"{{{US/ER_PUBLIC}}}", b"{{{USER\t_X",
+        # characters that str.splitlines() treats as line boundaries but a text file's line iteration does not (page break, VT,
+        # FS/GS/RS, NEL, LINE / PARAGRAPH SEPARATOR): ordinary content of a line
+        b"\x0c", b"a\x0cb", b"// page \x0b break", b"x\x1cy\x1dz\x1e", "nel\u0085here".encode(), "ls\u2028ps\u2029end".encode(),
     ]
     l = rng.choice(kinds)
     if marker is not None:
